@@ -4,6 +4,7 @@ import (
 	"bytes"
 	"errors"
 	"fmt"
+	"strings"
 	"testing"
 
 	modbus "github.com/aldas/go-modbus-client"
@@ -48,6 +49,8 @@ type fragCase struct {
 	SlowLastMs int `json:"slow_last_ms,omitempty"`
 	// ExplicitParser: the client's configuration names the standard response parser explicitly (see cli.Scenario)
 	ExplicitParser bool `json:"explicit_parser,omitempty"`
+	// Address: the form of the address given to Connect (network kinds; see cli.Scenario)
+	Address string `json:"address,omitempty"`
 }
 
 // Replies computes the reply (and the normal reply length) from the device model.
@@ -129,7 +132,7 @@ func prepare(c fragCase) (prepared, error) {
 	p.predicted = cli.Model(c.Kind, reply, ev, E)
 	p.affected = known && (p.predicted.Timeout || p.predicted.Total != len(reply))
 	// (no later call where an open finding makes the client wait for more bytes than the reply has: it would only end by the read timeout)
-	p.sc = cli.Scenario{Kind: c.Kind, Req: c.Req, Stream: reply, Events: ev, Follow: c.Follow && E <= normalLen, ExplicitParser: c.ExplicitParser}
+	p.sc = cli.Scenario{Kind: c.Kind, Req: c.Req, Stream: reply, Events: ev, Follow: c.Follow && E <= normalLen, ExplicitParser: c.ExplicitParser, Address: c.Address}
 	if p.affected && p.predicted.Timeout {
 		p.sc.ReadTimeoutMs = 25
 	} else if c.SlowLastMs > 0 {
@@ -162,6 +165,9 @@ func judge(c fragCase, p prepared, o cli.Outcome) harness.Result {
 	}
 	if c.ExplicitParser {
 		labels = append(labels, "explicit-parser")
+	}
+	if i := strings.Index(c.Address, "://"); i > 0 {
+		labels = append(labels, "address:"+c.Address[:i])
 	}
 	if o.Panic != nil {
 		return harness.Fail("client panicked: %v", o.Panic)
@@ -298,6 +304,9 @@ func genFrag(t *rapid.T, kinds []string) fragCase {
 		c.EOF = rapid.SampledFrom([]int{0, 0, 0, 1, 2}).Draw(t, "eof")
 	}
 	c.ExplicitParser = !cli.IsSerial(c.Kind) && rapid.IntRange(0, 3).Draw(t, "explicit_parser") == 0
+	if !cli.IsSerial(c.Kind) {
+		c.Address = rapid.SampledFrom(cli.Addresses).Draw(t, "address")
+	}
 	if cli.IsSerial(c.Kind) && c.ExcCode == 0 && rapid.IntRange(0, 7).Draw(t, "slow_last") == 0 {
 		c.SlowLastMs = 260
 	}
